@@ -14,8 +14,10 @@ package c05
 // identified as an OBJECT (address, token, weight), not only as an address. A lookup is what the proxy does:
 // cm.GetClusterSnapshot(name).LoadBalancer().ChooseHost(ctx), plus the size of the snapshot's host set.
 // Line: `hops <pol>/<p|s0|s1> <op;op;…> => <out;out;…>`
-//   updater out: `<pre>/<post>/<set>`: lookup inside the handler before / after the real handler ran (`_` when not
-//   wrapped), and the published host set after the call returned (`a.t.w,…` sorted by address, `-` empty)
+//   updater out: `<pre>/<post>/<set>/<win|win…>`: lookup inside the handler before / after the real handler ran (`_` when not
+//   wrapped), the published host set after the call returned (`a.t.w,…` sorted by address, `-` empty), and one window per
+//   publication inside the update (verif publish hook, called right after the atomic store): `<site>:<set>:<lookup>` =
+//   0 snapshot store / 1 clustersMap store, the host set and a lookup as a reader sees them at that moment
 //   lookup out: `<a>.<t>.<w>#<size>` or `-#<size>`;  F out: `.`
 
 import (
@@ -194,9 +196,21 @@ func runHops(c *hx.Ctx, pol string, typ types.LoadBalancerType, sub string, ops 
 	}
 	e := &pubEnv{cm: cm, name: cfg.Name, cfg: cfg, rng: c.Rng}
 	var outs, toks []string
+	// every publication (snapshot store into a cluster's cell, cluster store into clustersMap) calls back right after the
+	// atomic step: what a reader sees in EVERY window of an update, also inside the real handlers and the closures
+	var win []string
+	recording := false
+	cluster.VerifSetPublishHook(func(_ types.Cluster, site int) {
+		if recording {
+			win = append(win, fmt.Sprintf("%d:%s:%s", site, e.published(), e.lookup(-1)))
+		}
+	})
+	defer cluster.VerifSetPublishHook(nil)
 	for _, o := range ops {
 		toks = append(toks, o.String())
 		pre, post := "_", "_"
+		win = nil
+		recording = o.kind != 'F' && o.kind != 'L' && o.kind != 'M'
 		hostWrap := func(real types.HostUpdateHandler) types.HostUpdateHandler {
 			return func(cl types.Cluster, cfgs []v2.Host) {
 				pre = e.lookup(-1)
@@ -252,11 +266,17 @@ func runHops(c *hx.Ctx, pol string, typ types.LoadBalancerType, sub string, ops 
 			outs = append(outs, e.lookup(o.a))
 			continue
 		}
+		recording = false
 		if err != nil {
 			outs = append(outs, "err")
 			continue
 		}
-		outs = append(outs, pre+"/"+post+"/"+e.published())
+		w := "none"
+		if len(win) > 0 {
+			w = strings.Join(win, "|")
+		}
+		c.Count(fmt.Sprintf("hops.windows=%d", len(win)))
+		outs = append(outs, pre+"/"+post+"/"+e.published()+"/"+w)
 		c.Count("hops.updater=" + string(o.kind))
 	}
 	c.Emit("C05", fmt.Sprintf("hops %s/%s %s", pol, sub, strings.Join(toks, ";")), strings.Join(outs, ";"))
